@@ -173,7 +173,8 @@ func sameObs(a, b runObs) bool {
 		return false
 	}
 	if a.class != clValue {
-		return a.msg == b.msg
+		// error texts may list colliding series in map order: only the class is compared
+		return true
 	}
 	for i := range a.res {
 		if a.res[i].key != b.res[i].key || a.res[i].h != b.res[i].h || !feq(a.res[i].f, b.res[i].f) {
@@ -329,6 +330,8 @@ var corpus = [][2]string{
 	{"call-anchored", `increase(foo[1m] anchored) + rate(foo[2m] smoothed)`},
 	{"fill-modifier", `foo + on(job, instance) fill(0) bar`},
 	{"duration-expr", `rate(foo[step()+1m]) + foo offset (1m*2)`},
+	{"merge-float-hist-stepinv", `-{__name__=~"foo|h"} @ 100`},
+	{"merge-float-float", `-{__name__=~"foo|bar"} @ 100`},
 	{"hq-empty-label", `-histogram_quantiles(h, "", 0.5)`},
 	{"hq-empty-label-classic", `-histogram_quantiles(b_bucket, "", 0.5, 0.9)`},
 	{"agg-param-varies-expr-invariant", `topk(scalar(foo{job="a",instance="i0"}) / 10, foo @ 300)`},
@@ -548,6 +551,10 @@ func main() {
 			shape = "histogram-quantiles-empty-label-name"
 		case internal && c.bareExt && strings.Contains(msg, "index out of range"):
 			shape = "extended-matrix-selector-empty-window"
+		case internal && strings.Contains(msg, "unexpected number of samples") && !strings.Contains(msg, "unexpected error:"):
+			// StepInvariantExpr over a series that mergeSeriesWithSameLabelset built from a float
+			// and a histogram series with one labelset
+			shape = "same-labelset-float-histogram-merge"
 		case internal:
 			shape = "internal-error"
 		case !c.concSame:
